@@ -24,6 +24,7 @@ import (
 	"strings"
 	"sync"
 	"sync/atomic"
+	"syscall"
 	"time"
 
 	"git.arvados.org/arvados.git/lib/config"
@@ -123,12 +124,12 @@ type vkVolSpec struct {
 }
 
 type vkConf struct {
-	Vols             []vkVolSpec
-	TTL              time.Duration
-	TrashLifetime    time.Duration
-	BlobTrash        bool
-	DeleteConc       int
-	TrashConc        int
+	Vols          []vkVolSpec
+	TTL           time.Duration
+	TrashLifetime time.Duration
+	BlobTrash     bool
+	DeleteConc    int
+	TrashConc     int
 }
 
 // vkCluster returns a private copy of the default cluster config with the
@@ -327,6 +328,29 @@ func vkShard() (int, int) {
 }
 
 var vkScratchSeq int64
+var vkSweepOnce sync.Once
+
+// vkSweepStale removes scratch directories left behind by test processes
+// that no longer exist (killed on a driver timeout, for instance).
+func vkSweepStale(base string) {
+	ents, err := ioutil.ReadDir(base)
+	if err != nil {
+		return
+	}
+	for _, e := range ents {
+		parts := strings.Split(e.Name(), "-")
+		if len(parts) != 4 || parts[0] != "verif" || parts[1] != "ks" {
+			continue
+		}
+		pid, err := strconv.Atoi(parts[2])
+		if err != nil || pid == os.Getpid() {
+			continue
+		}
+		if err := syscall.Kill(pid, 0); err == syscall.ESRCH {
+			os.RemoveAll(filepath.Join(base, e.Name()))
+		}
+	}
+}
 
 // vkScratch creates a private scratch directory (tmpfs when available: ns
 // mtimes, flock, plenty of space so IsFull is false).
@@ -338,6 +362,7 @@ func vkScratch(t vkT) string {
 			base = os.TempDir()
 		}
 	}
+	vkSweepOnce.Do(func() { vkSweepStale(base) })
 	d := filepath.Join(base, fmt.Sprintf("verif-ks-%d-%d", os.Getpid(), atomic.AddInt64(&vkScratchSeq, 1)))
 	os.RemoveAll(d)
 	if err := os.MkdirAll(d, 0755); err != nil {
